@@ -5,7 +5,9 @@ local CAS writes, token re-claims), instances drawing tokens from one tiny share
 LeftHasNoTokens over every reachable descriptor and, on every transition, CollisionRule + ResolveDeterministic
 (action property StepRules).  Binding: the path to every reachable state is executed with real Desc.Merge calls
 (receiver and change compared after every step) and the resulting real descriptor is queried through real ring.Ring
-clients; random merge sequences over a shared pool are recorded, queried and validated by RingMergeTrace.tla.
+clients; a long-lived ring client watches the replica the way memberlist's watchers do (clones handed out are never
+mutated; it answers like a fresh client after every step); random merge sequences over a shared pool are recorded,
+watched, queried and validated by RingMergeTrace.tla.
 """
 import os
 
@@ -25,7 +27,11 @@ META = {
                   "3 repetitions for map order; receiver and change compared after each step) and the real merged descriptor, stored "
                   "and as clients see it, is queried through real ring.Ring clients (zone-aware and not: Get for every key class and "
                   "operation, ShuffleShard, ShuffleShardWithLookback, GetTokenRangesForInstance, GetReplicationSetForOperation) under "
-                  "recover; the token index must name the specification's owner for every position.",
+                  "recover; the token index must name the specification's owner for every position. Along every replayed path (and "
+                  "next to every recorded replica) a LONG-LIVED ring.Ring is fed, after every real Merge, Clone() of the in-place merged "
+                  "value with tombstones stripped through its WatchKey callback (exactly kv/memberlist's KV.get -> watcher), and must "
+                  "answer like a ring built afresh from a deep copy of the same value; every clone handed out earlier is deep-compared "
+                  "with the copy taken at hand-out time (RingReplica.tla: SnapshotsImmutable, ReaderSeesLatest).",
     "level_note": "Exhaustive for the stated tiny universes; larger rings only through recorded random traces (5 instances / 3 positions) "
                   "validated by TLC. Lookups are checked for absence of ErrInconsistentTokensInfo / panics and for the owner index, "
                   "not against a full lookup oracle (that is C01's RingLookup specification). Deliberately not demanded (DESIGN 2 C05): "
@@ -37,8 +43,10 @@ META = {
 }
 
 
-# of the transitions that resolve a collision every THIN-th (residue chosen by the seed) is replayed as well
-THIN = {"MC_replica_quick.cfg": 16, "MC_replica_full.cfg": 400, "MC_replica_upd2.cfg": 16, "MC_replica_m3.cfg": 16}
+# of the transitions that resolve a collision every ThinK-th and of all transitions every ThinA-th (residue chosen
+# by the seed) are replayed in addition to the BFS path of every reachable state: config -> (ThinK, ThinA, M, TLC workers share)
+CFG = {"MC_replica_quick.cfg": (32, 300, 2), "MC_replica_n3m2.cfg": (32, 300, 2), "MC_replica_upd2.cfg": (32, 300, 2),
+       "MC_replica_m3.cfg": (32, 300, 3), "MC_replica_full.cfg": (400, 3000, 2)}
 
 
 def run(ctx):
@@ -55,46 +63,55 @@ def run(ctx):
     ctx.exhaustive = True
 
     # ---- 1. TLC: invariants over all reachable descriptors, step rules on all transitions ------
-    runs = [("MC_replica_quick.cfg", 2)] if quick else [("MC_replica_quick.cfg", 2), ("MC_replica_upd2.cfg", 2), ("MC_replica_m3.cfg", 3),
-                                                        ("MC_replica_full.cfg", 2)]
-    path_files = []
-    for cfg, m in runs:
-        think = THIN[cfg]
-        r = rc.tlc_ok(ctx, "RingReplica", cfg, coverage=(cfg == "MC_replica_full.cfg"),
-                      subst={"@@THINK@@": think, "@@THINR@@": ctx.seed % think})
-        if rc.zero_coverage(r):
-            raise verif.Inconclusive("actions with zero coverage in %s: %s" % (cfg, rc.zero_coverage(r)))
-        if r.emitted == 0:
-            raise verif.Inconclusive("%s emitted no paths" % cfg)
-        path_files.append((r.out_path, m, r.emitted, cfg))
+    cfgs = ["MC_replica_quick.cfg"] if quick else ["MC_replica_full.cfg", "MC_replica_n3m2.cfg", "MC_replica_upd2.cfg", "MC_replica_m3.cfg"]
+    wk = rc.par_workers(min(len(cfgs), 3))
 
-    # the deliberate non-demand must still be a real behaviour of the specification
-    r = ctx.tlc(rc.FAMILY, "RingReplica", cfg="MC_diverge.cfg", workers=rc.WORKERS or 2, timeout=rc.TLC_TIMEOUT, count=False)
-    if r.timed_out or r.error or r.violated != "NeverResolveWithoutTimestamp":
-        raise verif.Inconclusive("MC_diverge.cfg: expected TLC to exhibit ResolveWithoutTimestamp, got violated=%s error=%s" % (
-            r.violated, (r.error or "")[:200]))
-    ctx.extra["deviation_ResolveWithoutTimestamp_exhibited"] = True
-
-    # ---- 2. spec -> code: replay every path, query real rings; record random merges -------------
+    def model(cfg):
+        def f():
+            think, thina, m = CFG[cfg]
+            r = rc.tlc_ok(ctx, "RingReplica", cfg, coverage=(cfg == "MC_replica_full.cfg"),
+                          workers=(None if len(cfgs) == 1 else (2 * wk if cfg == "MC_replica_full.cfg" else wk)) or rc.WORKERS,
+                          subst={"@@THINK@@": think, "@@THINA@@": thina, "@@THINR@@": ctx.seed % (think * thina)})
+            if rc.zero_coverage(r):
+                raise verif.Inconclusive("actions with zero coverage in %s: %s" % (cfg, rc.zero_coverage(r)))
+            if r.emitted == 0:
+                raise verif.Inconclusive("%s emitted no paths" % cfg)
+            return (r.out_path, m, r.emitted, cfg)
+        return f
+    # code -> spec runs beside the model checking: record random merges over a shared pool (every receiver also watched by
+    # a long-lived ring client), then let TLC recompute every call
     tdir = os.path.dirname(ctx.path("traces", "x"))
     tn, tm = 5, 3
-    first = True
-    for path, m, emitted, cfg in path_files:
-        env = {"VERIF_IN": path, "VERIF_M": m, "VERIF_REPS": 3}
-        if first:
-            steps = 400 if quick else 4000
-            env.update({"VERIF_TRACE_DIR": tdir, "VERIF_TN": tn, "VERIF_TM": tm, "VERIF_TSTEPS": steps,
-                        "VERIF_TMAXNOW": max(60, steps // 4), "VERIF_TPROBE_EVERY": 4 if quick else 8})
-        if os.environ.get("VERIF_CORRUPT"):
-            env["VERIF_CORRUPT"] = os.environ["VERIF_CORRUPT"]
-        res = ctx.run_harness("c05", "^TestC05$", env=env, timeout=3000)
-        if not res.get("fatal") and int((res.get("extra") or {}).get("paths", 0)) != emitted:
-            raise verif.Inconclusive("%s: harness replayed %s of %d paths" % (cfg, (res.get("extra") or {}).get("paths"), emitted))
-        ctx.absorb(res, cfg)
-        first = False
+    steps = 400 if quick else 4000
 
-    # ---- 3. code -> spec ------------------------------------------------------------------------
-    n = rc.validate_trace(ctx, "RingMergeTrace", os.path.join(tdir, "ring_trace.ndjson"),
-                          {"@@N@@": tn, "@@M@@": tm, "@@NREP@@": 3}, "ring trace (shared pool)", "ring:trace")
-    ctx.extra["trace_events_validated"] = n
+    def record_and_validate():
+        env = {"VERIF_TRACE_DIR": tdir, "VERIF_TN": tn, "VERIF_TM": tm, "VERIF_TSTEPS": steps,
+               "VERIF_TMAXNOW": max(60, steps // 4), "VERIF_TPROBE_EVERY": 4 if quick else 8}
+        res = rc.locked_harness(ctx, "c05", "^TestC05$", env=env, timeout=3000)
+        n = rc.validate_trace(ctx, "RingMergeTrace", os.path.join(tdir, "ring_trace.ndjson"),
+                              {"@@N@@": tn, "@@M@@": tm, "@@NREP@@": 3}, "ring trace (shared pool)", "ring:trace")
+        return ("rec", res, n)
+    out = rc.run_parallel([record_and_validate] + [model(c) for c in cfgs], 4)
+    rec_res, ntrace = out[0][1], out[0][2]
+    path_files = out[1:]
+
+    # the deliberate non-demand must still be a real behaviour of the specification (thorough tier only: one JVM start less)
+    r = None if quick else rc.locked_tlc(ctx, rc.FAMILY, "RingReplica", cfg="MC_diverge.cfg", workers=rc.WORKERS or 2, timeout=rc.TLC_TIMEOUT, count=False)
+    if r is not None:
+        if r.timed_out or r.error or r.violated != "NeverResolveWithoutTimestamp":
+            raise verif.Inconclusive("MC_diverge.cfg: expected TLC to exhibit ResolveWithoutTimestamp, got violated=%s error=%s" % (
+                r.violated, (r.error or "")[:200]))
+        ctx.extra["deviation_ResolveWithoutTimestamp_exhibited"] = True
+
+    # ---- 2. spec -> code: replay every path, query real rings; record random merges -------------
+    emitted = sum(pf[2] for pf in path_files)
+    env = {"VERIF_IN": rc.concat(ctx, "c05_paths.ndjson", [pf[0] for pf in path_files]), "VERIF_REPS": 3}
+    res = ctx.run_harness("c05", "^TestC05$", env=env, timeout=3000)
+    if not res.get("fatal") and int((res.get("extra") or {}).get("paths", 0)) != emitted:
+        raise verif.Inconclusive("harness replayed %s of %d paths" % ((res.get("extra") or {}).get("paths"), emitted))
+    ctx.absorb(res, "replay")
+
+    # ---- 3. code -> spec (ran beside step 1) ------------------------------------------------------
+    ctx.absorb(rec_res, "record")
+    ctx.extra["trace_events_validated"] = ntrace
     return "model_checking"
